@@ -121,6 +121,13 @@ def set_subscript(ip, st, obj, idx, v):
         f = ip.getattr(st, obj, "__setitem__")
         return ip.call(st, f, [idx, v])
     if isinstance(obj, DRef):
+        idx = st.force(idx)
+        if isinstance(idx, SAtom):
+            # `d[k] = v` with k one of finitely many constants (shapes.Atom asserts that k IS one of its domain): one
+            # path per constant the key can equal on this path, each with an ordinary constant-key store -- the same
+            # case split dict_get makes for a read.  (CPython: the key's value decides the slot; nothing else happens.)
+            dom = list(idx.domain)
+            idx = dom[st.choose([idx == dd for dd in dom])]
         if isinstance(idx, Sym):
             raise Unsupported("dict store with symbolic key")
         obj.d[idx] = v
